@@ -25,6 +25,7 @@ func runC20(c *an.Ctx) {
 	r20ab(c, summ)
 	r20d(c)
 	r20e(c)
+	r20f(c)
 }
 
 const cfgPkg = "configuration/componentcfg"
@@ -645,5 +646,75 @@ func r20e(c *an.Ctx) {
 	})
 	if n == 0 {
 		c.Lost("a call from GetAndProcessComponentConfiguration to a Service method that updates cached state (templateSetForBasePath)")
+	}
+}
+
+// R20f: (a) "malformed queries are rejected": a run type name that is not a run type is rejected - the parsers look the
+// name up with the comma-ok form and test the answer; (b) the template loader hands a failed lookup of an (included)
+// entry on as an error - answered with a nil error the error text itself is cached as the entry's template.
+func r20f(c *an.Ctx) {
+	c.Rule("R20f", "query parsers test the run-type lookup; the template loader returns the error of a failed entry lookup", 3)
+	pk := c.Pkg(cfgPkg)
+	if pk == nil {
+		c.Lost("package configuration/componentcfg")
+		return
+	}
+	n := 0
+	for _, fn := range c.ModuleFuncs() {
+		if fn.Pkg != pk {
+			continue
+		}
+		an.Instrs(fn, func(in ssa.Instruction) {
+			lk, ok := in.(*ssa.Lookup)
+			if !ok {
+				return
+			}
+			ld, isLd := lk.X.(*ssa.UnOp)
+			if !isLd {
+				return
+			}
+			g, isG := ld.X.(*ssa.Global)
+			if !isG || g.Name() != "RunType_value" {
+				return
+			}
+			n++
+			c.Subject()
+			tested := false
+			if lk.CommaOk && lk.Referrers() != nil {
+				for _, r := range *lk.Referrers() {
+					if ex, isEx := r.(*ssa.Extract); isEx && ex.Index == 1 && ex.Referrers() != nil {
+						for _, rr := range *ex.Referrers() {
+							switch rr.(type) {
+							case *ssa.If, *ssa.UnOp, *ssa.BinOp, *ssa.Phi:
+								tested = true
+							}
+						}
+					}
+				}
+			}
+			c.Ob(fmt.Sprintf("%s|run-type-lookup#%d|answer-tested", c.RelName(fn), n), lk.Pos(), tested,
+				"the run type name is looked up without testing whether it exists: an unknown name is accepted as run type 0 (NULL) instead of being rejected as a bad key")
+		})
+	}
+	if n == 0 {
+		c.Lost("a lookup in apricotpb.RunType_value in configuration/componentcfg")
+	}
+	if fn := c.MustFn("configuration/template", "ConsulTemplateLoader.Get"); fn != nil {
+		for _, ci := range an.Calls(fn, func(nm string, ci ssa.CallInstruction) bool {
+			return an.MethodName(ci.Common()) == "GetComponentConfiguration"
+		}) {
+			call, ok := ci.(*ssa.Call)
+			if !ok {
+				continue
+			}
+			c.Subject()
+			var bad []string
+			for _, r := range errSwallowed(call) {
+				bad = append(bad, c.PosStr(lastPos(r.Block())))
+			}
+			sort.Strings(bad)
+			c.Ob("(*configuration/template.ConsulTemplateLoader).Get|lookup-error-returned", call.Pos(), len(bad) == 0,
+				"when the entry cannot be fetched the loader can return a nil error (at %v): the error text is taken for the entry's content, cached as its template, and served as the payload even after the entry exists", bad)
+		}
 	}
 }
